@@ -23,6 +23,9 @@ def num(x):
 def row(d):
     c = d.get("coverage", {})
     scopes = c.get("scopes", [])
+    if isinstance(scopes, dict):
+        scopes = [dict(name=f"{k}={v}") for k, v in scopes.items() if not isinstance(v, (list, dict))]
+    scopes = [x for x in scopes if isinstance(x, dict)]
     done = [s for s in scopes if s.get("completed", True)]
     capped = [s for s in scopes if not s.get("completed", True)]
     names = ", ".join(str(s.get("name")) for s in done[:6]) + (f", … ({len(done)} scopes)" if len(done) > 6 else "")
